@@ -146,6 +146,10 @@ bool Instance::parse_pretend_valid_expr(const char* expr) {
                 fprintf(stderr, "parse error (unexpected colon) near %s\n", p);
                 return false;
             }
+            if (c == p) {
+                fprintf(stderr, "parse error (empty signature) near %s\n", p);
+                return false;
+            }
             sig = s;
             got_sig = true;
             break;
@@ -153,6 +157,10 @@ bool Instance::parse_pretend_valid_expr(const char* expr) {
         case 0:
             if (!got_sig) {
                 fprintf(stderr, "parse error (missing signature) near %s\n", p);
+                return false;
+            }
+            if (c == p) {
+                fprintf(stderr, "parse error (empty public key) near %s\n", p - 1);
                 return false;
             }
             got_sig = false;
@@ -171,6 +179,11 @@ bool Instance::parse_pretend_valid_expr(const char* expr) {
             break;
         }
         p = c = c + (*c != 0);
+    }
+    if (got_sig) {
+        // the list ends after the colon: the signature would be dropped without a word
+        fprintf(stderr, "parse error (missing public key) at the end of %s\n", expr);
+        return false;
     }
     return true;
 }
